@@ -191,6 +191,10 @@ class FuncAnalysis:
             else:
                 for o in self.expr(t.value):
                     self.record_mut(o, st, src_of(st))
+                # obj.field += [..]: the list *stored in* the field is extended in place (it may be shared: a module table, a default)
+                if isinstance(st.op, ast.Add) and (isinstance(st.value, (ast.List, ast.ListComp)) or self.p.type_of(self.f, st.value) == 'list'):
+                    for o in self.expr(t):
+                        self.record_mut(o, st, src_of(st))
         elif isinstance(st, ast.AnnAssign):
             if st.value is not None:
                 self.assign(st.target, self.expr(st.value), st, top, st.value)
